@@ -1046,16 +1046,49 @@ func sys_allStacks() string {
 // F38a shape is narrow: a caller waits in request.Wait although neither doWrites nor a
 // writeRequests activity exists any more (the request entered writeCh after doWrites exited).
 func sys_classifyHang(call, dump string) string {
+	dump = sys_freshGoroutines(dump)
 	noWriter := !strings.Contains(dump, "(*DB).doWrites") && !strings.Contains(dump, "(*DB).writeRequests")
 	switch {
 	case strings.Contains(dump, "(*request).Wait") && noWriter && strings.Contains(call, "closing"):
 		return "[F38a:late-sender] " + call + " never returned: its request entered writeCh after doWrites had exited (req.Wait blocks for ever)"
+	case strings.Contains(dump, "filterPrefixesToDrop") && strings.Contains(dump, "(*oracle).readTs") &&
+		strings.Contains(dump, "(*request).Wait") && noWriter:
+		return "[F38b:dropprefix-late-sender] " + call + " never returned: DropPrefix blocked the writes and drained writeCh, a commit that had passed the blockWrites check sent its request afterwards (nobody serves writeCh until unblockWrite), and DropPrefix's filterPrefixesToDrop → View → oracle.readTs waits on txnMark for exactly that commit timestamp; every later transaction start waits behind it"
 	case sys_isF38c(dump) && noWriter && strings.Contains(call, "clos"):
 		return "[F38c:readts-after-orc-stop] " + call + " never returned: oracle.readTs waits in WaterMark.WaitForMark for a commit timestamp that was never marked done, and the watermark goroutines are gone (orc.Stop at the end of Close)"
 	case strings.Contains(dump, "(*WaterMark).WaitForMark") && noWriter:
 		return "[C38-timeout-readts] " + call + " did not return within the time bound: blocked in WaterMark.WaitForMark"
 	}
 	return "[C38-timeout] " + call + " did not return within the time bound"
+}
+
+// sys_freshGoroutines drops from a dump the goroutines that were already present in an earlier
+// dump of this process (a run that hit a hang leaves its stuck goroutines behind; they must not
+// decide the classification of a later one).
+var sys_seenGoroutines = map[string]bool{}
+
+func sys_freshGoroutines(dump string) string {
+	var keep []string
+	var ids []string
+	for _, blk := range strings.Split(dump, "\n\n") {
+		id := ""
+		if strings.HasPrefix(blk, "goroutine ") {
+			if f := strings.Fields(blk); len(f) > 1 {
+				id = f[1]
+			}
+		}
+		if id != "" && sys_seenGoroutines[id] {
+			continue
+		}
+		keep = append(keep, blk)
+		if id != "" {
+			ids = append(ids, id)
+		}
+	}
+	for _, id := range ids {
+		sys_seenGoroutines[id] = true
+	}
+	return strings.Join(keep, "\n\n")
 }
 
 // sys_isF38c: some goroutine waits in oracle.readTs → WaitForMark while no WaterMark.process
@@ -1168,9 +1201,10 @@ func sys_stress(kv map[string]string, st *Stats) (samples []string, fails []stri
 		for !stopAll.Load() && !closing.Load() {
 			p := wd.do("WriteBatch.Flush", func() {
 				wb := db.NewWriteBatch()
-				defer wb.Cancel()
+				// no deferred Cancel: a Flush that panics (F38a) leaves the batch's mutex locked
 				for j := 0; j < 20; j++ {
 					if wb.Set(key(r), val(r)) != nil {
+						wb.Cancel()
 						return
 					}
 				}
@@ -1526,6 +1560,7 @@ func sys_lateFlush(st *Stats) (out string, fails []string) {
 			return "flush-" + res + " close=returned", nil
 		case <-time.After(5 * time.Second):
 			if dump := sys_allStacks(); sys_isF38c(dump) && strings.Contains(dump, "(*WriteBatch).commit") {
+				_ = sys_freshGoroutines(dump) // the stuck Flush stays behind: not evidence for later dumps
 				st.Inc("late-flush:hangs")
 				return "flush-hangs close=returned", []string{"[F38c:readts-after-orc-stop] WriteBatch.Flush called before Close and scheduled after it never returns: its commit is refused (ErrBlockedWrites) and WriteBatch.commit's next newTransaction blocks in oracle.readTs → WaterMark.WaitForMark; the commit timestamp's Done mark went to a stopped watermark (orc.Stop at the end of Close)"}
 			}
